@@ -1022,8 +1022,22 @@ impl SignedDuration {
         self,
         rhs: SignedDuration,
     ) -> Option<SignedDuration> {
-        let Some(rhs) = rhs.checked_neg() else { return None };
-        self.checked_add(rhs)
+        match rhs.checked_neg() {
+            Some(rhs) => self.checked_add(rhs),
+            // When `rhs` has `i64::MIN` seconds, `-rhs` isn't representable,
+            // but `self - rhs` still is when `self` is negative. So we add
+            // `-(rhs + 1s)`, which is always representable, and then the
+            // remaining second. Both additions only overflow when the true
+            // difference does.
+            None => {
+                let almost =
+                    SignedDuration::new_unchecked(i64::MAX, -rhs.nanos);
+                match self.checked_add(almost) {
+                    Some(sum) => sum.checked_add(SignedDuration::from_secs(1)),
+                    None => None,
+                }
+            }
+        }
     }
 
     /// Add two signed durations together. If overflow occurs, then arithmetic
